@@ -614,6 +614,59 @@ fn shrink(base: &Path, kind: Kind, h: &[CStmt], oracle: &str, cls: &str, strict:
     }
 }
 
+/// Sub-histories of `h` that end with its last statement and have the shape of `min` (same operation
+/// kinds and RETURNING flags, keys renamed one-to-one), as concrete statements of `h`.
+fn embeddings(h: &[CStmt], min: &[CStmt]) -> Vec<Vec<CStmt>> {
+    fn same_shape(a: &Op, b: &Op) -> bool {
+        a.ret == b.ret && std::mem::discriminant(&a.k) == std::mem::discriminant(&b.k)
+    }
+    fn go(h: &[CStmt], min: &[CStmt], hi: usize, mi: usize, pick: &mut Vec<usize>, out: &mut Vec<Vec<usize>>) {
+        if mi == min.len() {
+            out.push(pick.clone());
+            return;
+        }
+        // the last statement of min must be the last statement of h
+        let remaining = min.len() - mi;
+        for i in hi..h.len() {
+            if h.len() - i < remaining {
+                break;
+            }
+            if remaining == 1 && i + 1 != h.len() {
+                continue;
+            }
+            if same_shape(&h[i].op, &min[mi].op) {
+                pick.push(i);
+                go(h, min, i + 1, mi + 1, pick, out);
+                pick.pop();
+            }
+        }
+    }
+    if min.is_empty() || min.len() >= h.len() {
+        return vec![];
+    }
+    let mut picks = vec![];
+    go(h, min, 0, 0, &mut vec![], &mut picks);
+    let mut out = vec![];
+    for p in picks {
+        // consistent one-to-one key renaming
+        let mut map: Vec<(u8, u8)> = vec![];
+        let mut ok = true;
+        for (j, &i) in p.iter().enumerate() {
+            for (a, b) in min[j].op.keys().iter().zip(h[i].op.keys().iter()) {
+                match map.iter().find(|(x, y)| x == a || y == b) {
+                    Some((x, y)) if x == a && y == b => {}
+                    Some(_) => ok = false,
+                    None => map.push((*a, *b)),
+                }
+            }
+        }
+        if ok {
+            out.push(p.iter().map(|&i| h[i].clone()).collect());
+        }
+    }
+    out
+}
+
 fn signature(kind: Kind, oracle: &str, minimal: &[CStmt], cls: &str) -> String {
     format!("C05/{}/{}/{}/{}", oracle, kind.name(), pattern(minimal), cls)
 }
@@ -750,11 +803,20 @@ struct Explorer<'a> {
     capped: bool,
     since_check: u32,
     index_plan: BTreeMap<Kind, bool>,
+    /// what this worker learnt about executed histories: real divergence (nothing below is explored)
+    /// and soft oracles that failed there (switched off below)
+    known: HashMap<(usize, Kind, Vec<Op>), PrefixInfo>,
+    /// minimal failing histories established by a full shrink, per (kind, strict, oracle, class)
+    minimals: BTreeMap<(Kind, bool, String, String), Vec<(Vec<CStmt>, String, Value)>>,
+}
+struct PrefixInfo {
+    fatal: bool,
+    off: Vec<&'static str>,
 }
 
 impl<'a> Explorer<'a> {
     fn new(ctx: &'a Ctx) -> Explorer<'a> {
-        Explorer { ctx, plant: Plant::from_ctx(ctx), db_seq: 0, shrink_memo: BTreeMap::new(), ext_memo: HashMap::new(), capped: false, since_check: 0, index_plan: BTreeMap::new() }
+        Explorer { ctx, plant: Plant::from_ctx(ctx), db_seq: 0, shrink_memo: BTreeMap::new(), ext_memo: HashMap::new(), capped: false, since_check: 0, index_plan: BTreeMap::new(), known: HashMap::new(), minimals: BTreeMap::new() }
     }
     fn fresh(&mut self, kind: Kind) -> TestDb {
         self.db_seq += 1;
@@ -787,7 +849,7 @@ impl<'a> Explorer<'a> {
             return true;
         }
         self.since_check += 1;
-        if self.since_check >= 64 {
+        if self.since_check >= 16 {
             self.since_check = 0;
             if self.ctx.expired() {
                 rep.capped(&format!("deadline during {what}"));
@@ -832,19 +894,46 @@ impl<'a> Explorer<'a> {
     fn report(&mut self, rep: &mut Reporter, pass: &Pass, kind: Kind, h: &[CStmt], fails: &[Fail]) {
         for f in fails {
             let key = (kind, f.oracle.to_string(), f.cls.clone(), pattern(h));
-            let (sig, case) = match self.shrink_memo.get(&key) {
-                Some(x) => {
-                    rep.count("shrink_memo_hits", 1);
-                    x.clone()
+            let mkey = (kind, pass.strict(), f.oracle.to_string(), f.cls.clone());
+            let mut found = self.shrink_memo.get(&key).cloned();
+            if found.is_some() {
+                rep.count("shrink_memo_hits", 1);
+            }
+            // shortcut: a minimal pattern already established for this oracle/class that is embedded in
+            // `h` (same operations, keys renamed) and — checked by one execution — fails on its own
+            if found.is_none() {
+                let mut runs = 0u64;
+                'outer: for (min, sig, case) in self.minimals.get(&mkey).cloned().unwrap_or_default() {
+                    for cand in embeddings(h, &min).into_iter().take(2) {
+                        runs += 1;
+                        let ok = run_all(&self.ctx.scratch, kind, &cand, pass.strict(), self.plant).iter().any(|(i, fs)| *i + 1 == cand.len() && fs.iter().any(|x| x.oracle == f.oracle && x.cls == f.cls));
+                        if ok {
+                            found = Some((sig.clone(), case.clone()));
+                            rep.count("shrink_shortcut_hits", 1);
+                            break 'outer;
+                        }
+                    }
                 }
+                rep.count("shrink_runs", runs);
+                if let Some(x) = &found {
+                    self.shrink_memo.insert(key.clone(), x.clone());
+                }
+            }
+            let (sig, case) = match found {
+                Some(x) => x,
                 None => {
                     let mut runs = 0;
                     let min = shrink(&self.ctx.scratch, kind, h, f.oracle, &f.cls, pass.strict(), self.plant, &mut runs);
                     rep.count("shrink_runs", runs);
+                    rep.count("shrink_full", 1);
                     let sig = signature(kind, f.oracle, &min, &f.cls);
                     let mut case = history_json(kind, pass.name, &min);
                     case["found_in"] = json!({"pattern": pattern(h)});
                     self.shrink_memo.insert(key, (sig.clone(), case.clone()));
+                    let e = self.minimals.entry(mkey).or_default();
+                    if !e.iter().any(|(_, s, _)| *s == sig) {
+                        e.push((min, sig.clone(), case.clone()));
+                    }
                     (sig, case)
                 }
             };
@@ -864,130 +953,166 @@ impl<'a> Explorer<'a> {
         rep.count(&format!("histories:len{}", h.len()), 1);
     }
 
-    /// depth-first exploration below the agreed prefix `h` (database `db` is in that state)
-    #[allow(clippy::too_many_arguments)]
-    fn dfs(&mut self, rep: &mut Reporter, pass: &Pass, kind: Kind, h: &mut Vec<CStmt>, tr: &Track, db: TestDb, depth: usize) {
-        let mut db = Some(db);
-        for op in enabled(pass, kind, tr) {
-            if self.check_deadline(rep, &format!("pass {} kind {}", pass.name, kind.name())) {
-                return;
-            }
-            let t = match db.take() {
-                Some(t) => t,
-                None => self.rebuild(kind, h, rep),
-            };
-            let cs = CStmt::at(op, h.len(), kind, pass.strict());
-            let mut tr2 = tr.clone();
-            let fails = step(&t, &mut tr2, &cs, kind, pass.strict(), self.plant, Some(rep));
-            h.push(cs);
-            self.account(rep, kind, h, tr, &tr2);
-            let fatal = settle(&mut tr2, &fails);
-            if !fails.is_empty() {
-                let hv = h.clone();
-                self.report(rep, pass, kind, &hv, &fails);
-            }
-            if !fatal {
-                if h.len() < depth {
-                    self.dfs(rep, pass, kind, h, &tr2, t, depth);
-                } else {
-                    self.leaf(rep, kind, &t, h.len());
+    /// Execute the history `ops` on a fresh database; the LAST statement is the transition under test
+    /// (oracle, accounting, report).  For `ops.len() <= split` the prefix statements run with the
+    /// oracle too (their owners are other workers, so nothing is known about them here); deeper
+    /// prefixes were executed by this worker on an earlier level: what it learnt is in `known`.
+    fn run_leaf(&mut self, rep: &mut Reporter, pi: usize, kind: Kind, ops: &[Op], split: usize, depth: usize) {
+        let pass = &PASSES[pi];
+        let t = self.fresh(kind);
+        let mut tr = Track::new(kind);
+        let mut h: Vec<CStmt> = Vec::with_capacity(ops.len());
+        let n = ops.len();
+        for (i, op) in ops.iter().enumerate() {
+            let last = i + 1 == n;
+            let cs = CStmt::at(*op, i, kind, pass.strict());
+            let before = if last { Some(tr.clone()) } else { None };
+            if last || n <= split {
+                let fails = step(&t, &mut tr, &cs, kind, pass.strict(), self.plant, if last { Some(rep) } else { None });
+                h.push(cs);
+                let new_off: Vec<&'static str> = fails.iter().filter(|f| SOFT.contains(&f.oracle)).map(|f| f.oracle).collect();
+                let fatal = settle(&mut tr, &fails);
+                if fatal || !new_off.is_empty() {
+                    self.known.insert((pi, kind, ops[..=i].to_vec()), PrefixInfo { fatal, off: new_off });
+                }
+                if last {
+                    self.account(rep, kind, &h, before.as_ref().unwrap(), &tr);
+                    if !fails.is_empty() {
+                        self.report(rep, pass, kind, &h, &fails);
+                    }
+                    if fatal {
+                        let n = count_ext(pass, kind, &tr, h.len(), depth - h.len(), &mut self.ext_memo);
+                        rep.pruned(n);
+                        rep.count(&format!("pruned:{}", pass.name), n);
+                    } else if n == depth {
+                        self.leaf(rep, kind, &t);
+                    }
+                } else if fatal {
+                    return; // reported by the owner of that prefix
                 }
             } else {
-                drop(t);
-                let n = count_ext(pass, kind, &tr2, h.len(), depth - h.len(), &mut self.ext_memo);
-                rep.pruned(n);
-                rep.count(&format!("pruned:{}", pass.name), n);
+                // known-good prefix statement: execute without oracle, keep the model in step
+                let _ = t.exec(&cs.sql);
+                self.plant_after(&t, &cs);
+                tr.before(cs.op);
+                let _ = cs.stmt.apply(&mut tr.st);
+                let rows = tr.st.rows("t");
+                tr.note_values(&rows);
+                if let Some(info) = self.known.get(&(pi, kind, ops[..=i].to_vec())) {
+                    for o in &info.off {
+                        tr.off.insert(o);
+                    }
+                }
+                h.push(cs);
+                rep.count("prefix_statements_reexecuted", 1);
             }
-            h.pop();
         }
     }
 
     /// end of a full-depth history: occasionally re-validate the plan of the PK lookup
-    fn leaf(&mut self, rep: &mut Reporter, kind: Kind, t: &TestDb, _len: usize) {
+    fn leaf(&mut self, rep: &mut Reporter, kind: Kind, t: &TestDb) {
         if kind.has_pk() && self.db_seq % 256 == 0 {
             let p = explain(t.db(), "SELECT * FROM t WHERE id = 2").unwrap_or_default();
             rep.count(if p.contains("IndexScan") { "explain_pk_index_plan" } else { "explain_pk_other_plan" }, 1);
         }
     }
 
-    /// a history of length <= split depth, owned by this worker: oracle at every step; reports
-    /// only a divergence of the LAST statement (earlier ones belong to the owner of that prefix)
-    fn run_short(&mut self, rep: &mut Reporter, pass: &Pass, kind: Kind, ops: &[Op], split: usize, depth: usize) {
-        let t = self.fresh(kind);
-        let mut tr = Track::new(kind);
-        let mut h: Vec<CStmt> = vec![];
-        for (i, op) in ops.iter().enumerate() {
-            let last = i + 1 == ops.len();
-            let cs = CStmt::at(*op, i, kind, pass.strict());
-            let before = tr.clone();
-            let fails = step(&t, &mut tr, &cs, kind, pass.strict(), self.plant, if last { Some(rep) } else { None });
-            h.push(cs);
-            if last {
-                self.account(rep, kind, &h, &before, &tr);
-            }
-            let fatal = settle(&mut tr, &fails);
-            if last && !fails.is_empty() {
-                self.report(rep, pass, kind, &h, &fails);
-            }
-            if fatal {
-                if last {
-                    let n = count_ext(pass, kind, &tr, h.len(), depth - h.len(), &mut self.ext_memo);
-                    rep.pruned(n);
-                    rep.count(&format!("pruned:{}", pass.name), n);
-                }
+    fn is_fatal(&self, pi: usize, kind: Kind, ops: &[Op]) -> bool {
+        self.known.get(&(pi, kind, ops.to_vec())).map(|i| i.fatal).unwrap_or(false)
+    }
+
+    /// all histories of exactly length `len` below the owned prefix `ops` (model-only walk; real
+    /// execution at the leaves), skipping what lies below a divergent history
+    #[allow(clippy::too_many_arguments)]
+    fn walk(&mut self, rep: &mut Reporter, pi: usize, kind: Kind, ops: &mut Vec<Op>, tr: &Track, len: usize, split: usize, depth: usize) {
+        let pass = &PASSES[pi];
+        for op in enabled(pass, kind, tr) {
+            if self.capped {
                 return;
             }
-        }
-        if ops.len() == split && split < depth {
-            self.dfs(rep, pass, kind, &mut h, &tr, t, depth);
+            ops.push(op);
+            if ops.len() == len {
+                if !self.check_deadline(rep, &format!("pass {} kind {} length {}", pass.name, kind.name(), len)) {
+                    self.run_leaf(rep, pi, kind, ops, split, depth);
+                }
+            } else if !self.is_fatal(pi, kind, ops) {
+                let mut t2 = tr.clone();
+                t2.before(op);
+                let _ = CStmt::at(op, ops.len() - 1, kind, pass.strict()).stmt.apply(&mut t2.st);
+                self.walk(rep, pi, kind, ops, &t2, len, split, depth);
+            }
+            ops.pop();
         }
     }
 
+    /// Level by level (iterative deepening over ALL passes and kinds): when the deadline cuts the
+    /// run, every pass/kind has been explored to the same length.
     fn explore(&mut self, rep: &mut Reporter) {
         let only_kind = self.ctx.opt("kind").and_then(Kind::parse);
         let only_pass = self.ctx.opt("pass").map(|s| s.to_string());
-        let mut unit: u64 = 0;
-        for pass in PASSES.iter() {
-            if only_pass.as_deref().map(|p| p != pass.name).unwrap_or(false) {
-                continue;
-            }
+        let depth_of = |pass: &Pass| -> usize { self.ctx.opt("depth").and_then(|d| d.parse().ok()).unwrap_or(self.ctx.tier.pick(pass.depth_q, pass.depth_t)) };
+        let split = self.ctx.tier.pick(2usize, 3usize);
+        let max_depth = PASSES.iter().map(|p| depth_of(p)).max().unwrap_or(1);
+        for (pi, pass) in PASSES.iter().enumerate() {
             for kind in KINDS {
-                if only_kind.map(|k| k != kind).unwrap_or(false) {
+                let depth = depth_of(pass);
+                rep.bound(&format!("depth:{}:{}", pass.name, kind.name()), json!(depth));
+                rep.bound(&format!("histories:{}:{}", pass.name, kind.name()), json!(count_ext(pass, kind, &Track::new(kind), 0, depth, &mut HashMap::new())));
+                let _ = pi;
+            }
+        }
+        for len in 1..=max_depth {
+            let mut unit: u64 = 0;
+            for (pi, pass) in PASSES.iter().enumerate() {
+                if only_pass.as_deref().map(|p| p != pass.name).unwrap_or(false) {
                     continue;
                 }
-                let deeper = !self.ctx.quick() && pass.deeper_t.contains(&kind);
-                let depth = self.ctx.opt("depth").and_then(|d| d.parse().ok()).unwrap_or(self.ctx.tier.pick(pass.depth_q, pass.depth_t) + deeper as usize);
-                let split = self.ctx.tier.pick(2usize, 3usize).min(depth);
-                rep.bound(&format!("depth:{}:{}", pass.name, kind.name()), json!(depth));
-                let total = count_ext(pass, kind, &Track::new(kind), 0, depth, &mut HashMap::new());
-                rep.bound(&format!("histories:{}:{}", pass.name, kind.name()), json!(total));
-                self.plans(kind, rep);
-                self.ext_memo.clear();
-                // breadth-first over the model: histories of length 1..=split
-                let mut level: Vec<(Vec<Op>, Track)> = vec![(vec![], Track::new(kind))];
-                for len in 1..=split {
-                    let mut next = vec![];
-                    for (ops, tr) in &level {
-                        for op in enabled(pass, kind, tr) {
-                            let mut o2 = ops.clone();
-                            o2.push(op);
-                            let mut t2 = tr.clone();
-                            t2.before(op);
-                            let _ = CStmt::at(op, ops.len(), kind, pass.strict()).stmt.apply(&mut t2.st);
-                            next.push((o2, t2));
-                        }
+                let depth = depth_of(pass);
+                if len > depth {
+                    continue;
+                }
+                for kind in KINDS {
+                    if only_kind.map(|k| k != kind).unwrap_or(false) {
+                        continue;
                     }
-                    for (ops, _) in &next {
+                    self.plans(kind, rep);
+                    self.ext_memo.clear();
+                    // the ownership units: histories of length min(len, split), breadth-first over the model
+                    let ulen = len.min(split);
+                    let mut level: Vec<(Vec<Op>, Track)> = vec![(vec![], Track::new(kind))];
+                    for _ in 0..ulen {
+                        let mut next = vec![];
+                        for (ops, tr) in &level {
+                            for op in enabled(pass, kind, tr) {
+                                let mut o2 = ops.clone();
+                                o2.push(op);
+                                let mut t2 = tr.clone();
+                                t2.before(op);
+                                let _ = CStmt::at(op, ops.len(), kind, pass.strict()).stmt.apply(&mut t2.st);
+                                next.push((o2, t2));
+                            }
+                        }
+                        level = next;
+                    }
+                    for (ops, tr) in &level {
                         let mine = self.ctx.mine(unit);
                         unit += 1;
                         if !mine || self.capped {
                             continue;
                         }
-                        let _ = len;
-                        self.run_short(rep, pass, kind, ops, split, depth);
+                        if len <= split {
+                            if !self.check_deadline(rep, &format!("pass {} kind {} length {}", pass.name, kind.name(), len)) {
+                                self.run_leaf(rep, pi, kind, ops, split, depth);
+                            }
+                        } else if !(1..=ops.len()).any(|i| self.is_fatal(pi, kind, &ops[..i])) {
+                            let mut o = ops.clone();
+                            self.walk(rep, pi, kind, &mut o, tr, len, split, depth);
+                        }
                     }
-                    level = next;
                 }
+            }
+            if !self.capped {
+                rep.count(&format!("workers_completed_length:{len}"), 1);
             }
         }
     }
